@@ -31,16 +31,23 @@ BOUNDS = {'quick': {'kinds': KINDS, 'datasets': '1-d 3 bins with 1 or 2 compared
           'thorough': {'kinds': KINDS, 'datasets': 'as quick + 2-d with 2 datasets + scalar', 'verbosity': 'all 6 levels'}}
 ASSUMPTIONS = ['cell values are concrete distinct numbers so that rows can be recognised after formatting; the failing pattern, kind, verbosity and slice are solver-chosen',
                'a "mark" is the :hl: role or the word KO in the produced text; silent verbosity is outside the statement',
+               'read-back clause: every produced table is parsed with docutils on each path (concrete text): no message of level >= warning, one table, '
+               'headers, and per column the multiset of (cell text, highlighted) equal to the template (numbers up to 1e-6 relative); metadata values '
+               'are numbers or free text with a trailing / leading blank',
                'detailed-table clause: asserted on the TableTemplate (rows, highlight masks) and on the RstTable text (marked rows carry the values of exactly the failing bins)']
-OUTSIDE = ['parsing the tables back with docutils (validity of the reStructuredText is not claimed)', 'plots', 'user-defined representers']
+OUTSIDE = ['plots', 'user-defined representers', "Sphinx's rendering of the parsed tables (docutils 0.18 parses them back; the :hl: role is declared in front of each piece)"]
 EXPLANATION = ('bounded symbolic execution (symrun + z3: solver-chosen kinds, failing patterns, verbosities, slices) of the real table '
                'representers, templates and RstTable formatter; marks and highlighted rows compared with the failing pattern')
+
+
+_RST = [None]
 
 
 def _render(res, representer, verbosity):
     from valjean.javert.representation import Representation
     from valjean.javert.rst import Rst
     rst = Rst(Representation(representer, verbosity=verbosity))
+    _RST[0] = rst
     templates = rst.representation(res)
     text = '\n'.join(str(rst.formatter.template(t)) for t in templates)
     return templates, text
@@ -61,6 +68,71 @@ def _row_has(ln, x):
     return False
 
 
+def _docutils_read(text):
+    """parse a piece of reStructuredText with docutils -> (messages of level >= warning, tables as rows of (text, highlighted))"""
+    import io
+    from docutils.core import publish_doctree
+    from docutils import nodes
+    doctree = publish_doctree('.. role:: hl\n\n' + text, settings_overrides={'warning_stream': io.StringIO(), 'report_level': 2,
+                                                                           'halt_level': 5, 'file_insertion_enabled': False})
+    msgs = [m.astext() for m in doctree.traverse(nodes.system_message) if m['level'] >= 2]
+    tables = []
+    for tb in doctree.traverse(nodes.table):
+        head = [[e.astext() for e in r.traverse(nodes.entry)] for th in tb.traverse(nodes.thead) for r in th.traverse(nodes.row)]
+        body = []
+        for tbody in tb.traverse(nodes.tbody):
+            for r in tbody.traverse(nodes.row):
+                body.append([(e.astext(), any('hl' in n.get('classes', []) for n in e.traverse(nodes.inline)))
+                             for e in r.traverse(nodes.entry)])
+        tables.append((head, body))
+    return msgs, tables
+
+
+def _same_cell(got, want):
+    g, w = str(got).strip(), str(want).strip()
+    if g == w:
+        return True
+    try:
+        return abs(float(g) - float(w)) <= 1e-6 * max(1.0, abs(float(w)))
+    except ValueError:
+        return False
+
+
+def _check_read_back(ex, fmt, templates):
+    """the produced tables are valid reStructuredText whose cells (text and highlight) read back as the inputs"""
+    from valjean.javert.templates import TableTemplate
+    for t in templates:
+        if not isinstance(t, TableTemplate):
+            continue
+        text = str(fmt(t))
+        msgs, tables = _docutils_read(text)
+        ex.check(not msgs, 'tables-are-valid-reStructuredText', detail='; '.join(msgs)[:300])
+        ok = len(tables) == 1
+        ex.check(ok, 'one-docutils-table-per-table-template', detail=f'{len(tables)} tables')
+        if not ok or msgs:
+            continue
+        head, body = tables[0]
+        cols = [np.asarray(c).reshape(-1) for c in t.columns]
+        hls = [np.asarray(h).reshape(-1) for h in t.highlights]
+        ex.check(len(body) == len(cols[0]) and all(len(r) == len(cols) for r in body), 'read-back:number-of-rows-and-columns',
+                 detail=f'{len(body)} rows read, {len(cols[0])} expected')
+        if len(body) != len(cols[0]) or not all(len(r) == len(cols) for r in body):
+            continue
+        ex.check(bool(head) and [h.strip() for h in head[0]] == [str(h).strip() for h in t.headers], 'read-back:headers')
+        # the formatter walks arrays in memory order: compare each column as a multiset of (cell, highlighted)
+        good = True
+        for j, (c, h) in enumerate(zip(cols, hls)):
+            left = [(c[i], bool(h[i])) for i in range(len(c))]
+            for r in body:
+                g, ghl = r[j]
+                hit = [k for k, (w, whl) in enumerate(left) if whl == ghl and _same_cell(g, w)]
+                if not hit:
+                    good = False
+                    break
+                left.pop(hit[0])
+        ex.check(good, 'read-back:cells-and-their-highlights-are-the-inputs')
+
+
 def make_harness(kind, shape, nds):
     def harness(ex):
         from valjean.javert.verbosity import Verbosity
@@ -78,6 +150,7 @@ def make_harness(kind, shape, nds):
             return
         verdict = bool(res)
         ex.check(verdict == info['expected_verdict'], 'verdict-matches-the-failing-pattern')
+        _check_read_back(ex, _RST[0].formatter.template, templates)
         if v != Verbosity.SILENT:
             ex.check(_has_mark(text) == (not verdict), 'failure-mark-iff-the-result-is-false')
         # template sanity: every column and its highlight mask have the same number of rows
@@ -182,6 +255,7 @@ def make_slice_harness():
             [bool(x) for x in np.asarray(s.highlights[1]).reshape(-1)] == want_flags
         ex.check(ok, 'sliced-or-joined-table-keeps-highlights-aligned-with-rows')
         if ok and want_vals:
+            _check_read_back(ex, RstTable, [s])
             text = str(RstTable(s))
             marked = [ln for ln in text.splitlines() if ':hl:' in ln]
             ex.check(len(marked) == sum(want_flags) and
